@@ -30,7 +30,7 @@ RULE = ('Every DoWhile document shape of the tier (verif/gen/c05_shapes.shapes: 
         'The quick tier adds 6 seed-rotated shapes of the thorough space to its fixed core. Workflows with TWO (thorough: '
         'also three) DoWhile documents (consecutive stages in both registration orders, same stage, same component names '
         'in different stages; thorough: different topologies, suffix names, three loops) are driven through EVERY word of '
-        'length 4 (thorough 6; three loops 4) over the loops (all interleavings) plus long schedules in which one loop '
+        'length 3 (thorough 6; three loops 4) over the loops (all interleavings) plus long schedules in which one loop '
         'crosses 9->10 while the other is behind / ahead / in step, plus schedules with restarts. After every step '
         'the complete state (of every loop, each with its own k) is judged: node sets, every instance 0..k (references, command line, predecessors), '
         'placeholders, DoWhile state, stored flowir_instance.yaml, and DataReference.resolve / '
@@ -571,11 +571,8 @@ def _sel_state_of_other_loop(f):
     if sig == 'consumer:predecessors:foreign':
         if ob.get('missing') or not ob.get('unexpected') or not share:
             return False
-        allowed = set()
-        for j in share:
-            peers = [i for i in share if share[i][1] == share[j][1]]
-            newest = max(ks[i] for i in peers)
-            allowed |= {'stage%d.%d#%s' % (share[i][0], newest, share[i][1]) for i in peers if ks[i] == newest}
+        # edges are only ever added, so every instance that was the newest one at some earlier step may be there
+        allowed = {'stage%d.%d#%s' % (share[i][0], n, share[i][1]) for i in share for n in range(ks[i] + 1)}
         return set(ob['unexpected']) <= allowed
     return False
 
